@@ -399,19 +399,85 @@ pub fn pay(stream: usize, dir: usize, off: usize) -> u8 {
     (vf_common::splitmix(((stream as u64) << 40) ^ ((dir as u64) << 36) ^ off as u64) >> 24) as u8
 }
 
+/// A `pad` that starts with this marker asks for a VERBATIM target host: the rest of the pad is the whole host, without the
+/// `s<idx>.` tag that normally identifies a stream. Such streams are recognised through a per-thread table of the verbatim hosts of
+/// the case being run (they must be distinct within a case); a host that is altered anywhere on the way is then not recognised
+/// by the accepting side, which the C07 oracle reports.
+pub const VERBATIM_MARK: &[u8] = b"\x01\x02verbatim:";
+thread_local! {
+    static VERBATIM: std::cell::RefCell<Vec<(Vec<u8>, usize)>> = const { std::cell::RefCell::new(Vec::new()) };
+}
+pub fn register_verbatim(case: &Case) {
+    BIND_VERBATIM.with(|v| {
+        let mut v = v.borrow_mut();
+        v.clear();
+        for (k, b) in case.binds.iter().enumerate() {
+            if let Some(h) = b.host.strip_prefix(VERBATIM_MARK) {
+                v.push((h.to_vec(), k));
+            }
+        }
+    });
+    VERBATIM.with(|v| {
+        let mut v = v.borrow_mut();
+        v.clear();
+        for (i, st) in case.streams.iter().enumerate() {
+            if let Some(h) = st.pad.strip_prefix(VERBATIM_MARK) {
+                v.push((h.to_vec(), i));
+            }
+        }
+    });
+}
+thread_local! {
+    static BIND_VERBATIM: std::cell::RefCell<Vec<(Vec<u8>, usize)>> = const { std::cell::RefCell::new(Vec::new()) };
+}
+/// host of bind request `k`: `b<k>.` + the generated bytes, or (with the marker) the generated bytes verbatim
+pub fn bind_host(k: usize, host: &[u8]) -> Vec<u8> {
+    if let Some(h) = host.strip_prefix(VERBATIM_MARK) {
+        return h.to_vec();
+    }
+    let mut v = format!("b{k}.").into_bytes();
+    v.extend_from_slice(host);
+    v
+}
+pub fn parse_bind_tag(host: &[u8]) -> Option<usize> {
+    if let Some(k) = BIND_VERBATIM.with(|v| v.borrow().iter().find(|(h, _)| h == host).map(|x| x.1)) {
+        return Some(k);
+    }
+    if host.first() != Some(&b'b') {
+        return None;
+    }
+    let dot = host.iter().position(|b| *b == b'.')?;
+    std::str::from_utf8(&host[1..dot]).ok()?.parse().ok()
+}
 pub fn tag_host(idx: usize, pad: &[u8]) -> Vec<u8> {
+    if let Some(h) = pad.strip_prefix(VERBATIM_MARK) {
+        return h.to_vec();
+    }
     let mut v = format!("s{idx}.").into_bytes();
     v.extend_from_slice(pad);
     v
 }
 pub fn parse_tag(host: &[u8]) -> Option<usize> {
+    if let Some(i) = VERBATIM.with(|v| v.borrow().iter().find(|(h, _)| h == host).map(|x| x.1)) {
+        return Some(i);
+    }
     if host.first() != Some(&b's') {
         return None;
     }
     let dot = host.iter().position(|b| *b == b'.')?;
     std::str::from_utf8(&host[1..dot]).ok()?.parse().ok()
 }
+/// `host_len` values from 0x8000 select entry `host_len - 0x8000` of `vf_common::host_dictionary()` as the WHOLE host (no tag):
+/// hosts that mean something to some layer must travel as opaque octets like any other
+pub const DG_DICT: usize = 0x8000;
+pub fn dg_host_len(host_len: usize) -> usize {
+    if host_len >= DG_DICT { dg_host(0, host_len).len() } else { host_len }
+}
 pub fn dg_host(idx: usize, len: usize) -> Vec<u8> {
+    if len >= DG_DICT {
+        let d = vf_common::host_dictionary();
+        return d[(len - DG_DICT) % d.len()].clone();
+    }
     let mut v = format!("d{idx}.").into_bytes();
     // the host is a byte string, not text: after the tag come octets from the whole range (NUL, >= 0x80, 0xff, invalid UTF-8)
     while v.len() < len {
